@@ -415,3 +415,13 @@ def ops_of(q):
             break
         q = q["c"][0]
     return out[::-1]
+
+
+def groupby_fs(q):
+    out = []
+    while True:
+        if q["op"] == "groupby":
+            out.append(q["f"])
+        if "c" not in q:
+            return out
+        q = q["c"][0]
